@@ -52,6 +52,8 @@ PROPS = {
             "parts": [{"engine": "mp", "test": "TestVF_C08", "quick": (4, 1500), "thorough": (16, 40000)}]},
     "C09": {"level": "exploration", "assumptions": BASE_ASSUME + ["reading of 'content of any frame from before it': paired histories share the timeline (length, telemetry, resets) and differ only in pixels before the FFC period / reset; dynamic-threshold pairs have no reset before the end of the period (DESIGN.md C09)"],
             "parts": [{"engine": "mp", "test": "TestVF_C09", "quick": (4, 2500), "thorough": (16, 60000)}]},
+    "C14": {"level": "exploration", "assumptions": BASE_ASSUME + ["camera descriptions are encoded with the same yaml.v1 Marshal call as cmd/leptond's sendCameraSpecs (which itself needs camera hardware); strings are single-line valid UTF-8"],
+            "parts": [{"engine": "hdr", "test": "TestVF_C14_Header", "quick": (4, 2500), "thorough": (16, 50000)}]},
     "C15": {"level": "exploration", "assumptions": BASE_ASSUME + ["background and threshold are read in-package from the detector; threshold tolerance +-1 for float accumulation"],
             "parts": [{"engine": "mp", "test": "TestVF_C15", "quick": (4, 1500), "thorough": (16, 40000)}]},
     "C12": {"level": "exploration", "assumptions": MP_ASSUME + ["sink faults are injected by call ordinal on mock sinks; the real file recorder's own failure modes are exercised by the e2e checks"],
